@@ -371,6 +371,9 @@ def run_case(ctx, case):
                   "learned-keypoint output %.6g not finite/inside [%.6g, %.6g] at x=%.9g" % (yv, lo, hi, xu[b]),
                   info=info, finding=fk)
         continue
+      # a piece is uncertain only for an input within float32 resolution of it: clearly to its right its weight is 1
+      near = (xu[b] >= kp_u[u][:-1] - 4 * delta) & (xu[b] <= kp_u[u][1:] + 4 * delta)
+      tol = tol0 + float(np.sum(np.abs(hu) * np.where(near, np.minimum(1.0, delta / lens_u), 0.0)))
       e = abs(yv - ref[b]) if np.isfinite(yv) else float("inf")
       fk = None
       if e > tol and learned:
